@@ -71,6 +71,12 @@ def oracle_timers(tr, status, actions):
             late = [i for (i, t) in ok if i > term]
             if late:
                 v.append(f"{kind} delivered into the actor after it terminated")
+        if term is not None:
+            # every timer is aborted when the actor terminates: an aborted task ends at its next poll without looking at
+            # its sleep again, so a sleep of this task that completes after the termination means it was never aborted
+            woke = [ot[i][1] for i, e in enumerate(tr) if i > term and e[0] == 'sleep_done' and ot[i][0] == task]
+            if woke:
+                v.append(f"{kind} timer task was not aborted when the actor terminated: it slept on until time {woke[0]}")
         if status == 'quiescent' and term is not None:
             done = any(e[0] == 'task_done' and e[1] == task for e in tr)
             if not done:
